@@ -134,6 +134,7 @@ func (s *scanner) stateMinusFound(c byte) bool {
 
 func (s *scanner) stateFirstZeroFound(c byte) bool {
 	if c == '.' {
+		s.finished = false
 		s.stateFn = s.statePointFound
 		return true
 	}
@@ -146,9 +147,11 @@ func (s *scanner) stateIntegerNumberFound(c byte) bool {
 		s.intLen++
 
 	case '.':
+		s.finished = false
 		s.stateFn = s.statePointFound
 
 	case 'e', 'E':
+		s.finished = false
 		s.stateFn = s.stateExpFound
 	default:
 		return false
@@ -170,6 +173,7 @@ func (s *scanner) stateFractionalNumberFound(c byte) bool {
 	case '0', '1', '2', '3', '4', '5', '6', '7', '8', '9':
 		s.fraLen++
 	case 'e', 'E':
+		s.finished = false
 		s.stateFn = s.stateExpFound
 	default:
 		return false
@@ -180,12 +184,14 @@ func (s *scanner) stateFractionalNumberFound(c byte) bool {
 func (s *scanner) stateExpFound(c byte) bool {
 	switch c {
 	case '+':
+		s.finished = false
 		s.stateFn = s.stateExpSignFound
 
 	case '-':
 		if s.expBegin == 0 {
 			s.expBegin = s.index
 		}
+		s.finished = false
 		s.stateFn = s.stateExpSignFound
 
 	case '0', '1', '2', '3', '4', '5', '6', '7', '8', '9':
